@@ -680,20 +680,35 @@ def eval_cancel_job(ctx, mod, cname):
 
 
 def eval_clean_logs(ctx):
+    """clean_logs on a modelled log directory: current targets A, B and `old.v2` (dotted names are legal), logs left by the removed targets `old` and `gone` (of
+    which only the .stderr exists).  Returns (files left, directories listed, function)."""
+    import fnmatch as _fn
     fn = ctx.index.func("gwf.plugins.run:clean_logs")
-    removed, listed = [], []
+    listed = []
+    D = PROJ + "/.gwf/logs"
+    disk = {D + "/" + n for n in ("A.stdout", "A.stderr", "B.stdout", "old.stdout", "old.stderr", "gone.stderr", "old.v2.stdout", "old.v2.stderr")}
+
+    def h_remove(p, *a, **k):
+        if str(p) not in disk:
+            raise Raised("FileNotFoundError", str(p))
+        disk.discard(str(p))
+
+    def unescape(pat):      # glob.escape wraps the magic characters in brackets
+        return pat
     hooks = {
-        "os.listdir": lambda d: listed.append(d) or ["A.stdout", "A.stderr", "B.stdout", "old.stdout", "old.stderr", "gone.stderr"],
-        "os.remove": lambda p: removed.append(p), "os.unlink": lambda p: removed.append(p),
-        "contextlib.suppress": lambda *a: Obj("suppress"),
+        "os.listdir": lambda d: listed.append(str(d)) or sorted(p_[len(str(d)) + 1:] for p_ in disk if p_.startswith(str(d) + "/")),
+        "os.scandir": lambda d: listed.append(str(d)) or [Obj("direntry", name=p_[len(str(d)) + 1:], path=p_) for p_ in sorted(disk) if p_.startswith(str(d) + "/")],
+        "os.remove": h_remove, "os.unlink": h_remove, "attr:unlink": lambda recv, *a, **k: h_remove(recv),
+        "os.path.exists": lambda p_: str(p_) in disk, "os.path.isfile": lambda p_: str(p_) in disk,
+        "glob.glob": lambda pat, *a, **k: sorted(p_ for p_ in disk if _fn.fnmatchcase(p_, str(pat))), "glob.iglob": lambda pat, *a, **k: iter(sorted(p_ for p_ in disk if _fn.fnmatchcase(p_, str(pat)))),
     }
     interp = PureInterp(ctx, hooks=hooks)
-    graph = Obj("graph", targets={"A": Obj("t", name="A"), "B": Obj("t", name="B")})
+    graph = Obj("graph", targets={n_: Obj("t", name=n_) for n_ in ("A", "B", "old.v2")})
     try:
         interp.call(fn, (PROJ, graph), {})
     except (Raised, Unsupported) as exc:
         return f"<{exc}>", listed, fn
-    return sorted(removed), listed, fn
+    return sorted(p_[len(D) + 1:] for p_ in disk), listed, fn
 
 
 def eval_local_job_states(ctx):
